@@ -306,28 +306,29 @@ def emit_kernels_v(path, parts=('ck', 'ubx', 'nmea')):
     L = ['(* GENERATED on every run by py/vlib/translate.py from the Python source in /repo. Do not edit. *)',
          'From Ubx Require Import Fields Base Checksum ParserUbx ParserNmea.', 'Open Scope N_scope.', '']
 
-    # ---- Checksum: state = (cka, ckb)
-    L += ['Record gck := mkGck { g_cka : N; g_ckb : N }.',
-          'Definition set_g_cka (s : gck) v := mkGck v (g_ckb s).',
-          'Definition set_g_ckb (s : gck) v := mkGck (g_cka s) v.']
-    cctx = Ctx('Checksum', {'_cka': ('g_cka', 'N'), '_ckb': ('g_ckb', 'N')})
-    args, body = translate_method(cctx, Checksum, 'add', ['byte'])
-    L.append(f'Definition g_ck_add (s : gck) ({args[0]} : N) : gck :=\n  {body}.')
-    args, body = translate_method(cctx, Checksum, 'reset', [])
-    L.append(f'Definition g_ck_reset (s : gck) : gck :=\n  {body}.')
-    fn = method_ast(Checksum, 'matches')
-    if len(fn.body) != 1 or not isinstance(fn.body[0], ast.Return):
-        raise TranslateError('Checksum.matches: expected a single return')
-    margs = [a.arg for a in fn.args.args if a.arg != 'self']
-    cctx.locals = {a: a for a in margs}
-    L.append(f'Definition g_ck_matches (s : gck) ({" ".join(margs)} : N) : bool :=\n  {expr(cctx, fn.body[0].value, "bool")}.')
-    fn = method_ast(Checksum, 'value')
-    rv = fn.body[0].value if len(fn.body) == 1 and isinstance(fn.body[0], ast.Return) else None
-    if not (isinstance(rv, ast.Tuple) and len(rv.elts) == 2):
-        raise TranslateError('Checksum.value: expected `return a, b`')
-    cctx.locals = {}
-    L.append(f'Definition g_ck_value (s : gck) : N * N := ({expr(cctx, rv.elts[0])}, {expr(cctx, rv.elts[1])}).')
-    L.append('')
+    if 'ck' in parts:
+        # ---- Checksum: state = (cka, ckb)
+        L += ['Record gck := mkGck { g_cka : N; g_ckb : N }.',
+              'Definition set_g_cka (s : gck) v := mkGck v (g_ckb s).',
+              'Definition set_g_ckb (s : gck) v := mkGck (g_cka s) v.']
+        cctx = Ctx('Checksum', {'_cka': ('g_cka', 'N'), '_ckb': ('g_ckb', 'N')})
+        args, body = translate_method(cctx, Checksum, 'add', ['byte'])
+        L.append(f'Definition g_ck_add (s : gck) ({args[0]} : N) : gck :=\n  {body}.')
+        args, body = translate_method(cctx, Checksum, 'reset', [])
+        L.append(f'Definition g_ck_reset (s : gck) : gck :=\n  {body}.')
+        fn = method_ast(Checksum, 'matches')
+        if len(fn.body) != 1 or not isinstance(fn.body[0], ast.Return):
+            raise TranslateError('Checksum.matches: expected a single return')
+        margs = [a.arg for a in fn.args.args if a.arg != 'self']
+        cctx.locals = {a: a for a in margs}
+        L.append(f'Definition g_ck_matches (s : gck) ({" ".join(margs)} : N) : bool :=\n  {expr(cctx, fn.body[0].value, "bool")}.')
+        fn = method_ast(Checksum, 'value')
+        rv = fn.body[0].value if len(fn.body) == 1 and isinstance(fn.body[0], ast.Return) else None
+        if not (isinstance(rv, ast.Tuple) and len(rv.elts) == 2):
+            raise TranslateError('Checksum.value: expected `return a, b`')
+        cctx.locals = {}
+        L.append(f'Definition g_ck_value (s : gck) : N * N := ({expr(cctx, rv.elts[0])}, {expr(cctx, rv.elts[1])}).')
+        L.append('')
 
     if 'ubx' not in parts:
         return finish_(path, L, parts)
